@@ -478,8 +478,41 @@ def r_fillcmd(ctx, model):
                           "(or none) than the one it is named after", key="fillcmd.options")
 
 
+def r_encodings(ctx, model):
+    """text files of the traditional formats are opened with one encoding by every reader, writer and re-emitter: the explicit encodings of the
+    package's open() calls on those files agree (a file written by write_energy is read back by read_energy; `cij fill` echoes the header lines of
+    the file read_elast_data parses).  An open() without an encoding follows the locale and is accepted next to an explicit UTF-8 one (every
+    supported platform's text default decodes ASCII, the documented content); a different explicit encoding is not"""
+    import ast as _ast
+    sites = []
+    for mname in ("cij.io.traditional.elast_dat", "cij.io.traditional.qha_input", "cij.cli.fill"):
+        mod = model.mods.get(mname)
+        if mod is None:
+            raise AnalysisError(f"anchor vanished: module {mname}")
+        for q, f in mod.funcs.items():
+            for c in _ast.walk(f):
+                if isinstance(c, _ast.Call) and isinstance(c.func, _ast.Name) and c.func.id == "open":
+                    enc = next((k.value for k in c.keywords if k.arg == "encoding"), c.args[3] if len(c.args) > 3 else None)
+                    if enc is None:
+                        val = None
+                    elif isinstance(enc, _ast.Constant) and isinstance(enc.value, str):
+                        val = enc.value.lower().replace("_", "-").replace("utf8", "utf-8")
+                    else:
+                        raise AnalysisError(f"{mname}:{q}: open() with an encoding that is not a constant")
+                    sites.append((mod, q, c, val))
+    ctx.floor("open() calls of the traditional-format readers/writers and of cij fill", len(sites), 3)
+    explicit = {v for _, _, _, v in sites if v is not None}
+    ref_enc = "utf-8" if "utf-8" in explicit or not explicit else sorted(explicit)[0]
+    for mod, q, c, val in sites:
+        ctx.check(val in (None, ref_enc), f"{mod.name}:{q} opens its text file with the common encoding", Where(mod.rel, q, c.lineno),
+                  expected=f"encoding={ref_enc!r} (or none)", found=f"encoding={val!r}",
+                  explanation=f"{q} decodes its file as {val!r} while the other readers and writers of the same formats use {ref_enc!r}: non-ASCII text (units, "
+                              f"formulae in the header lines) is read back or re-emitted as different characters", key=f"encoding.{q}")
+
+
 RULES = [
     ("R17.1-2", "phonon data: write_energy -> read_energy field wiring on reference data; no data-dependent branching", r_energy),
     ("R17.3,5", "static table reader on reference tables (lattice block, key spellings)", r_elast),
     ("R17.4", "cij fill re-emission structure", r_fillcmd),
+    ("R17.6", "one text encoding for every reader, writer and re-emitter of the traditional formats", r_encodings),
 ]
